@@ -344,6 +344,7 @@ def run(ctx):
                 if y != x and y.rsplit(".", 1)[0] == x.rsplit(".", 1)[0]:
                     ctx.report(r_g, key + "->" + y, "%s inserts into %s under the guard !%s.contains(..): the guard looks at a different container, so the entry is skipped whenever the other container happens to hold an equal element (and duplicates are not prevented)" % (fn.qual, y, x), fn.file, e["l"])
     ctx.floor(r_g, ng, 4, "membership-guarded insertions")
+    refset_rule(ctx, syn)
 
 
 def split_and(c):
@@ -375,3 +376,23 @@ def matching(s):
             if depth == 0:
                 return i
     return -1
+
+
+def refset_rule(ctx, syn):
+    """self-exclusion (C06.SELF) is by handle: refset.has_handle(candidate).  A reference set built from known selections
+    must therefore carry their handles, i.e. hold the stored TextSelection values and not fresh ones made from offsets."""
+    r = ctx.rule("C06.REFSET", "a reference set built from known text selections holds the stored selections themselves (with their handles): the conversions into TextSelectionSet never make a new TextSelection from the offsets")
+    n = 0
+    for fn in syn.fns:
+        if fn.file != "src/textselection.rs" or not fn.body or (fn.self_ty or "") != "TextSelectionSet":
+            continue
+        tr = fn.trait or ""
+        if not (re.match(r"^(From|FromIterator)<", tr) and ("TextSelection" in tr) and "ResultTextSelectionSet" not in tr):
+            continue
+        n += 1
+        ctx.functions_analysed.add(fn.qual)
+        r.hit(fn.qual, sample={"conversion": fn.qual})
+        for lit in walk(fn.body):
+            if lit.get("k") == "structlit" and lit["path"][-1] == "TextSelection":
+                ctx.report(r, fn.qual, "%s builds a new TextSelection { .. } for the set instead of taking the known selection itself: the handle is lost, has_handle() no longer recognises the reference, and a search from a known selection returns that selection as related to itself" % fn.qual, fn.file, lit.get("l"))
+    ctx.floor(r, n, 4, "conversions of known selections into TextSelectionSet")
